@@ -15,7 +15,7 @@ pub fn property() -> Property {
     Property {
         id: "C04",
         level: "exploration",
-        rule: "a generated padding scheme (any stop, missing/duplicated lines, ranges of one, reversed ranges, check marks, junk parts, sizes 1 .. 2^63-1) and a generated single-task sequence of real API calls (start_client, open_stream, disable_buffering, write_data_frame with 0 .. 3 frames' worth of payload, heartbeat frames) on a real client session over a recording in-memory transport; after every call the recorded bytes must parse under the reference codec with no leftover and, with command-0 frames erased, equal the reference encoding of what was submitted. Non-trivial = the case emitted >= 1 padding frame, or a write boundary fell inside a frame, or a line with a size > 65535 was reached, or a check mark was reached with payload remaining. Distinct = distinct serialized case. Call sequences also contain 'the peer sends a keep-alive request' (the answer is a packet like any other); one case in four runs over a transport whose k-th write call accepts at most 7, 8, 256 or 64..5000 bytes (short writes). A further op starts a data write while the peer's keep-alive request is being answered by the receive task; three cases in ten run over a transport that holds at most 256 / 1024 / 4096 bytes in flight with a draining peer, so writes wait in the transport and the two writers interleave. Answers to keep-alive requests are counted (where they land between the caller's frames is not fixed), everything else is compared position by position.",
+        rule: "a generated padding scheme (any stop, missing/duplicated lines, ranges of one, reversed ranges, check marks, junk parts, sizes 1 .. 2^63-1) and a generated single-task sequence of real API calls (start_client, open_stream, disable_buffering, write_data_frame with 0 .. 3 frames' worth of payload, heartbeat frames) on a real client session over a recording in-memory transport; after every call the recorded bytes must parse under the reference codec with no leftover and, with command-0 frames erased, equal the reference encoding of what was submitted. Non-trivial = the case emitted >= 1 padding frame, or a write boundary fell inside a frame, or a line with a size > 65535 was reached, or a check mark was reached with payload remaining. Distinct = distinct serialized case. Call sequences also contain 'the peer sends a keep-alive request' (the answer is a packet like any other); one case in four runs over a transport whose k-th write call accepts at most 7, 8, 256 or 64..5000 bytes (short writes). A further op starts a data write while the peer's keep-alive request is being answered by the receive task; three cases in ten run over a transport that holds at most 256 / 1024 / 4096 bytes in flight with a draining peer, so writes wait in the transport and the two writers interleave. Answers to keep-alive requests are counted (where they land between the caller's frames is not fixed), everything else is compared position by position. One case in six runs over a writer that hands nothing to the transport before flush (or shutdown): a packet the session never flushed is not on the wire when the call has returned.",
         assumptions: vec![
             "reference codec and reference scheme reader (harness/src/reference)",
             "tokio paused clock / current-thread scheduler; in-memory pipe of the harness",
